@@ -305,9 +305,9 @@ theorem gridVid_inj {nv i j i' j' : ℕ} (hj : j < nv) (hj' : j' < nv)
 
 theorem grid2_nodup {α : Type} (n m : ℕ) (f : ℕ → ℕ → α)
     (hinj : ∀ i j i' j', i < n → j < m → i' < n → j' < m → f i j = f i' j' → i = i' ∧ j = j') :
-    (grid2 n m f).Nodup := by
+    (meshGrid2 n m f).Nodup := by
   induction n with
-  | zero => simp [grid2]
+  | zero => simp [meshGrid2]
   | succ n ih =>
     rw [grid2_succ, List.nodup_append]
     refine ⟨ih (fun i j i' j' hi hj hi' hj' => hinj i j i' j' (by omega) hj (by omega) hj'), ?_, ?_⟩
